@@ -102,7 +102,7 @@ for sid, r in results.items():
     if sid in before:
         b = before[sid]
         meta["first_measurement_before_strengthening"] = {
-            "how": "tools/iso_run.sh with ISO_REV=<tag taken before this round's changes were looked at> (pre-r4 / pre-r5): scratch worktree of /repo + git archive of /verif at that tag, all 20 quick checks",
+            "how": "tools/iso_run.sh with ISO_REV=<tag taken before this round's changes were looked at> (pre-r4 / pre-r5 / pre-r6 / pre-r7): scratch worktree of /repo + git archive of /verif at that tag, all 20 quick checks",
             "fired": sorted(b["fired"]), "inconclusive": b["inconclusive"],
             "caught_by_own_property_check": pid in b["fired"],
             "caught_by_any_check": bool(b["fired"]),
